@@ -88,6 +88,31 @@ def _recover_binary_op(fn):
     return None
 
 
+def _mangle_private(node, qualname, glob):
+    """private name mangling of a method body: inside class C, `x.__name` means `x._C__name` (attribute accesses only; the
+    compiler does the same for plain names, which the code under analysis does not use)"""
+    if getattr(node, '_pysym_mangled', False):
+        return
+    node._pysym_mangled = True
+    parts = qualname.split('.')
+    cls = None
+    obj = glob
+    for q in parts[:-1]:
+        if q == '<locals>' or obj is None:
+            break
+        obj = obj.get(q) if isinstance(obj, dict) else getattr(obj, q, None)
+        if isinstance(obj, type):
+            cls = q
+    if cls is None:
+        return
+    cls = cls.lstrip('_')
+    if not cls:
+        return
+    for n in ast.walk(node):
+        if isinstance(n, ast.Attribute) and n.attr.startswith('__') and not n.attr.endswith('__'):
+            n.attr = '_%s%s' % (cls, n.attr)
+
+
 def lookup(fn):
     """-> (ast node (FunctionDef or Lambda), info dict).  Raises Unsupported/HarnessError."""
     code = fn.__code__
@@ -128,6 +153,7 @@ def lookup(fn):
         node = named[0] if len(named) >= 1 else srt[0]
         if len(named) > 1:
             raise Unsupported('ambiguous lambdas on one line at %s:%d' % (filename, code.co_firstlineno))
+    _mangle_private(node, fn.__qualname__, getattr(fn, '__globals__', None))
     end = getattr(node, 'end_lineno', node.lineno)
     first = key[1]
     text = '\n'.join(lines[first - 1:end])
